@@ -214,6 +214,14 @@ class CodecInterp(Interp):
                 frame.locals = saved
                 self.event('gather', elt)
                 return Sym('VALUES')
+            if isinstance(it, Sym) and it.op == 'VALUES' and not g.ifs:
+                # [f(v) for v in values]: one rewritten value per subset -- the same fact as `values[idx] = f(v)` in a loop
+                saved = dict(frame.locals)
+                self.assign(g.target, Sym('Vi'), frame, e)
+                elt = self.ev(e.elt, frame)
+                frame.locals = saved
+                self.event('valstore', elt, self.where(e, frame))
+                return Sym('VALUES')
             return Interp.comprehension(self, e, frame, ctor)
         return Interp.comprehension(self, e, frame, ctor)
 
